@@ -1,7 +1,7 @@
 (* C01 — Head parsers are total and memory-safe on arbitrary bytes.  Pinned statements only.
    [parse_request] / [parse_response] / [uri_*] are the checked-semantics models (Model/Parser.v):
    a [Fault] result stands for a panic, an out-of-bounds access or a non-ASCII &str. *)
-From KV Require Import Lib.Bytes Lib.Swar Model.Headers Model.Parser Spec.Substr Proofs.ParserSafe.
+From KV Require Import Lib.Bytes Lib.Swar Model.Headers Model.Parser Spec.Substr Proofs.SwarSpec Proofs.ParserSafe.
 
 (* the word-at-a-time block tests find the first offending byte, for every 8-byte word *)
 Theorem C01_swar_uri : forall bs, length bs = 8%nat -> Forall (fun b => (0 <= b < 256)%Z) bs ->
@@ -54,11 +54,23 @@ Theorem C01_accessors : forall s r, parse_request s = Ok r ->
 Proof. exact accessors_safe. Qed.
 Print Assumptions C01_accessors.
 
-Example C01_ex_accept : exists r, parse_request (bs "GET http://h:1/p?q HTTP/1.1" ++ [x0d;x0a] ++ bs "A: b" ++ [x0d;x0a;x0d;x0a]) = Ok r
-  /\ uri_path (q_target r) = Ok (bs "/p") /\ uri_authority (q_target r) = Ok (Some (bs "h:1")).
-Proof. eexists. vm_compute. repeat split. Qed.
+(* non-vacuity: concrete heads, evaluated *)
+Definition path_is (s p : bytes) : bool :=
+  match parse_request s with
+  | Ok r => match uri_path (q_target r) with Ok x => bytes_eqb x p | _ => false end
+  | _ => false
+  end.
+Definition authority_is (s a : bytes) : bool :=
+  match parse_request s with
+  | Ok r => match uri_authority (q_target r) with Ok (Some x) => bytes_eqb x a | _ => false end
+  | _ => false
+  end.
+Example C01_ex_accept :
+  path_is (bs "GET http://h:1/p?q HTTP/1.1" ++ [x0d;x0a] ++ bs "A: b" ++ [x0d;x0a;x0d;x0a]) (bs "/p") = true /\
+  authority_is (bs "GET http://h:1/p?q HTTP/1.1" ++ [x0d;x0a] ++ bs "A: b" ++ [x0d;x0a;x0d;x0a]) (bs "h:1") = true.
+Proof. split; vm_compute; reflexivity. Qed.
 Example C01_ex_reject_high : parse_request (bs "GET /" ++ [xff; x01] ++ bs " HTTP/1.1" ++ [x0d;x0a;x0d;x0a]) = Err EStatus.
 Proof. vm_compute. reflexivity. Qed.
-Example C01_ex_slash_before_scheme : exists r, parse_request (bs "GET a/b://c HTTP/1.1" ++ [x0d;x0a;x0d;x0a]) = Ok r
-  /\ uri_authority (q_target r) = Ok (Some (bs "a")).
-Proof. eexists. vm_compute. repeat split. Qed.
+Example C01_ex_slash_before_scheme :
+  authority_is (bs "GET a/b://c HTTP/1.1" ++ [x0d;x0a;x0d;x0a]) (bs "a") = true.
+Proof. vm_compute. reflexivity. Qed.
